@@ -18,7 +18,9 @@ def gen_config(kind, rng: random.Random, thorough=False):
         ndim = rng.choice([1, 2, 2, 3])
         fam = rng.choice(WAVELETS_ORTHO + ([rng.choice(WAVELETS_BIORTHO)] if rng.random() < 0.3 else []))
         shape = [rng.choice([4, 6, 8]) if ndim < 3 else rng.choice([4, 6]) for _ in range(ndim)]
-        return {'kind': kind, 'wavelet': fam, 'domain': shape, 'level': rng.choice([None, 1, 1, 2]), 'batch': rng.choice([0, 2]), 'seed': seed}
+        return {'kind': kind, 'wavelet': fam, 'domain': shape, 'level': rng.choice([None, 1, 1, 2]), 'batch': rng.choice([0, 2]),
+                # where the transformed axes sit: after the batch axis (negative dims), before it (non-negative dims), around it
+                'layout': rng.choice(['trailing', 'trailing', 'leading', 'mixed']), 'seed': seed}
     if kind == 'fft':
         rank = rng.randint(1, 3)
         shape = [rng.randint(1, 5) for _ in range(rank)]
@@ -90,10 +92,18 @@ def build(cfg):
         dom = cfg['domain']
         nd = len(dom)
         lead = [cfg['batch']] if cfg['batch'] else []
-        op = mrpro.operators.WaveletOp(domain_shape=dom, dim=tuple(range(-nd, 0)), wavelet_name=cfg['wavelet'], level=cfg['level'])
-        x = torch.zeros(*lead, *dom, dtype=torch.complex128)
+        layout = cfg.get('layout', 'trailing') if lead else 'trailing'
+        if layout == 'leading':
+            dims, full = tuple(range(nd)), [*dom, *lead]
+        elif layout == 'mixed' and nd >= 2:
+            full = [dom[0], *lead, *dom[1:]]
+            dims = (0, *range(2, nd + 1)) if rng.random() < 0.5 else (-(nd + 1), *range(-(nd - 1), 0))
+        else:
+            dims, full = tuple(range(-nd, 0)), [*lead, *dom]
+        op = mrpro.operators.WaveletOp(domain_shape=dom, dim=dims, wavelet_name=cfg['wavelet'], level=cfg['level'])
+        x = torch.zeros(*full, dtype=torch.complex128)
         (y,) = op(x)
-        return op, [*lead, *dom], list(y.shape), 1e-9
+        return op, full, list(y.shape), 1e-9
     if kind == 'fft':
         op = mrpro.operators.FastFourierOp(dim=tuple(cfg['dim']), recon_matrix=cfg['recon'], encoding_matrix=cfg['enc'])
         x = torch.zeros(cfg['shape'], dtype=torch.complex128)
